@@ -22,6 +22,7 @@ from vlib.tmodel import (Attr, Call, El, Exists, IText, Import, Lit, Not, Pipe, 
 
 PROP = 'C04'
 TITLE = 'TALES semantics; once, in order'
+DEBUG_SHARDS = True      # two of sixteen shards run the library in its debug mode (vlib/runner.py)
 LEVEL = 'exploration'
 SHARDS = {'quick': 16, 'thorough': 16}
 FLOOR = {'quick': 1500, 'thorough': 20000}
